@@ -52,11 +52,12 @@ pub open spec fn one_intrinsic_block(o: ControlFlowGraph, n: ControlFlowGraph) -
         /*@ok*/ r is Ok,
         /*@shape*/ one_intrinsic_block(*old(control_flow_graph), *final(control_flow_graph)),
         /*@il_wf*/ final(control_flow_graph).graph_il_wf(),
-//@ before 0 `control_flow_graph.set_entry(block_index)?;`
+//@ before 0 `control_flow_graph.set_entry(`
     proof {
-        assert(control_flow_graph.graph.vertices@[block_index].block_il_wf());
+        let b = old(control_flow_graph).next_index;
+        assert(control_flow_graph.graph.vertices@[b].block_il_wf());
         lemma_contents_il_wf_ext(*old(control_flow_graph), *control_flow_graph);
-        lemma_reaches_self(*control_flow_graph, block_index);
+        lemma_reaches_self(*control_flow_graph, b);
     }
 //@ end
 
@@ -68,11 +69,12 @@ pub open spec fn one_intrinsic_block(o: ControlFlowGraph, n: ControlFlowGraph) -
         /*@ok*/ r is Ok,
         /*@shape*/ one_block(*old(control_flow_graph), *final(control_flow_graph), 1) && new_op(*old(control_flow_graph), *final(control_flow_graph), 0) == (Operation::Nop { placeholder: None }),
         /*@il_wf*/ final(control_flow_graph).graph_il_wf(),
-//@ before 0 `control_flow_graph.set_entry(block_index)?;`
+//@ before 0 `control_flow_graph.set_entry(`
     proof {
-        assert(control_flow_graph.graph.vertices@[block_index].block_il_wf());
+        let b = old(control_flow_graph).next_index;
+        assert(control_flow_graph.graph.vertices@[b].block_il_wf());
         lemma_contents_il_wf_ext(*old(control_flow_graph), *control_flow_graph);
-        lemma_reaches_self(*control_flow_graph, block_index);
+        lemma_reaches_self(*control_flow_graph, b);
     }
 //@ end
 
@@ -93,8 +95,8 @@ pub open spec fn one_intrinsic_block(o: ControlFlowGraph, n: ControlFlowGraph) -
         /*@unchanged*/ old(control_flow_graph).graph.vertices@[old(control_flow_graph).entry->0].instructions@.len() > 0 ==> *final(control_flow_graph) == *old(control_flow_graph),
 //@ before 0 `Ok(())`
     proof {
-        if head_block_num_instructions == 0 {
-            let e = old(control_flow_graph).entry->0;
+        let e = old(control_flow_graph).entry->0;
+        if old(control_flow_graph).graph.vertices@[e].instructions@.len() == 0 {
             assert(control_flow_graph.graph.vertices@[e].block_il_wf()) by {
                 lemma_pushed_op_il_wf(old(control_flow_graph).graph.vertices@[e], control_flow_graph.graph.vertices@[e], Operation::Nop { placeholder: None });
             }
@@ -112,10 +114,11 @@ pub open spec fn one_intrinsic_block(o: ControlFlowGraph, n: ControlFlowGraph) -
     ensures
         /*@shape*/ one_intrinsic_block(*old(control_flow_graph), *final(control_flow_graph)),
         /*@il_wf*/ final(control_flow_graph).graph_il_wf(),
-//@ before 0 `control_flow_graph.set_entry(block_index).unwrap();`
+//@ before 0 `control_flow_graph.set_entry(`
     proof {
-        assert(control_flow_graph.graph.vertices@[block_index].block_il_wf());
+        let b = old(control_flow_graph).next_index;
+        assert(control_flow_graph.graph.vertices@[b].block_il_wf());
         lemma_contents_il_wf_ext(*old(control_flow_graph), *control_flow_graph);
-        lemma_reaches_self(*control_flow_graph, block_index);
+        lemma_reaches_self(*control_flow_graph, b);
     }
 //@ end
